@@ -77,6 +77,8 @@ static void check_fsr(const std::string &prop, const MSignal &s, const Op &o, co
             add_violation(v, prop, "gap_not_nan", fmt("sig=%d %s sample=%lld got=0x%llx", s.id, dt_name[s.dtype], (long long) (o.a + i), (unsigned long long) g), ri);
             return;
         }
+        // blocks omitted on request are synthesised from the summary: only the count and type are promised (C15)
+        if (dt_bits[s.dtype] > 8 && s.in_omitted(o.a + i)) continue;
         const char *cls = s.in_gap(o.a + i) ? "gap_not_zero" : "sample_mismatch";
         add_violation(v, prop, cls, fmt("sig=%d %s window=[%lld,+%lld) first_bad=%lld (abs id %lld) got=0x%llx exp=0x%llx len=%lld first_id=%lld",
                                         s.id, dt_name[s.dtype], (long long) o.a, (long long) o.n, (long long) (o.a + i), (long long) (s.first_id + o.a + i),
@@ -90,6 +92,8 @@ static void check_stats(const std::string &prop, const MSignal &s, const Op &o, 
     int64_t inc = o.b, cnt = o.n;
     if (inc <= 0 || cnt <= 0 || o.a < 0 || o.a + inc * cnt > len) { ++n_calls_unjudged; return; }
     if (s.dtype == DT_U24 || s.dtype == DT_I24) { ++n_calls_unjudged; return; }           // reader cannot summarise 24-bit types
+    // level-0 statistics over blocks omitted on request use synthesised samples: not judged (stored summaries are judged by C15 / the decoder)
+    if (dt_bits[s.dtype] > 8) for (auto &g : s.omitted) if (g.first < o.a + inc * cnt + inc && g.second > o.a - inc) { ++n_calls_unjudged; return; }
     if (c.rc == 26 /* JLS_ERROR_UNSUPPORTED_FILE: 64-bit level-0 */ && dt_bits[s.dtype] == 64) { ++n_calls_unjudged; return; }
     // windows containing gap fill are judged by C09 only for floats (NaN ignored); others unjudged here
     bool has_gap = false;
